@@ -331,15 +331,25 @@ theorem c20_bool_narrowing_agrees (x : Int) :
   by_cases h : x = 0 <;> simp [h]
 
 /-- **C20.T7 (rule tables).** The dtype → conversion-rule table extracted from the ONNX loader's
-`load_constant` is fully recognised, never wraps, and the converter's
-`constant_node_from_onnx_initializer` applies the same rule to every dtype the loader supports;
-the converter's own table is fully recognised and never wraps either; and the loader's
-saturating cast is the clamp the model `satCastI64ToI32` describes. -/
+`load_constant` has exactly the eight expected arms, each with the expected rule (the translator
+compares every arm, and every helper function the arms call, with its exact text; an arm it
+cannot cut out or classify makes it fail before this theorem is even checked); the converter's
+`constant_node_from_onnx_initializer` applies the same rule to every dtype the loader supports,
+its table is pinned entry by entry as well (int16 is the only extra dtype), its frame
+(`to_array`, the match, `ConstantNode(..)`, a single final wildcard `raise`) is the expected one;
+nothing wraps or is unrecognised; and the loader's saturating cast is the clamp the model
+`satCastI64ToI32` describes. -/
 theorem c20_const_rules_agree :
+    loaderConstRules = [("FLOAT", .keepF32), ("INT32", .keepI32), ("UINT8", .keepU8), ("INT8", .keepI8),
+      ("INT64", .satI64), ("BOOL", .boolToI32), ("DOUBLE", .f64ToF32), ("FLOAT16", .f16ToF32)] ∧
+    loaderConstRules.map (·.1) = ["FLOAT", "INT32", "UINT8", "INT8", "INT64", "BOOL", "DOUBLE", "FLOAT16"] ∧
     (∀ p ∈ loaderConstRules, p.2 ≠ .unrecognised ∧ p.2 ≠ .wrapI64 ∧ ruleOf converterConstRules p.1 = p.2) ∧
-    (∀ p ∈ converterConstRules, p.2 ≠ .unrecognised ∧ p.2 ≠ .wrapI64) ∧
-    ruleOf loaderConstRules "INT64" = .satI64 ∧ ruleOf loaderConstRules "BOOL" = .boolToI32 ∧
-    ruleOf loaderConstRules "DOUBLE" = .f64ToF32 ∧ ruleOf loaderConstRules "FLOAT16" = .f16ToF32 ∧
+    (∀ p ∈ converterConstRules, p.2 ≠ .unrecognised ∧ p.2 ≠ .wrapI64 ∧
+      (ruleOf loaderConstRules p.1 = p.2 ∨ p = ("INT16", .widenI16))) ∧
+    (converterConstRules.map (·.1)).length = 9 ∧ (converterConstRules.map (·.1)).eraseDups.length = 9 ∧
+    converterFrameRecognised = true ∧
+    loaderHelpersRecognised = [("saturating_cast_i64_to_i32", true), ("make_constant", true),
+      ("convert_constant", true), ("convert_f16_constant", true), ("elements_from_le_bytes", true)] ∧
     loaderSatCastBody = "x.clamp(i32::MIN as i64, i32::MAX as i64) as i32" := by
   decide
 
